@@ -225,6 +225,10 @@ def compare(drv, el, values, out, stats, history, origin):
     except (TypeError, ValueError, RecursionError):
         stats["undumpable"] = stats.get("undumpable", 0) + 1
         return
+    # the fresh-element oracle below still applies there; only the model's answer is not consulted
+    outside = core.outside_additional_properties_model(dump)
+    if outside:
+        stats["outside-additional-properties-model"] = stats.get("outside-additional-properties-model", 0) + 1
     pats, fmts = core.elem_patterns_formats(el)
     texts = set()
     for v in values:
@@ -247,7 +251,7 @@ def compare(drv, el, values, out, stats, history, origin):
         stats["verdict-" + real["r"]] = stats.get("verdict-" + real["r"], 0) + 1
         if real["r"] not in ("ok", "reject") or model["r"] == "crash":
             continue
-        if real != model:
+        if real != model and not outside:
             out.disagreements.append({"what": "answer after reconfiguration", "impl": real, "model": model, **case})
         if fresh is not None:
             fr = core.real_call(fresh, v)
